@@ -51,13 +51,20 @@ RULE = ("first the committed witnesses of every repaired defect (D30, D36, D37, 
         "hyperedges of 9-22 nodes, int / large int / str labels in random order, 0-5 isolated nodes, weighted or not: HySC.fit 2-4 "
         "times with the same seed in one process (fresh objects, the same object again, numpy's global generator re-seeded in "
         "between; also weighted_L) - valid 0/1 matrix each time, all equal; HypergraphMT.fit twice + step by step with every oracle "
-        "of (a) and, in place of the Lean model, rho and psiOmega of every sweep against their definitions. "
+        "of (a) and, in place of the Lean model, rho and psiOmega of every sweep against their definitions; "
+        "(f) termination / initialisation class: hypergraphs of class (a) with check_convergence_every in {1,2,3,4,7}, tolerance in "
+        "{0.01,0.1,0.5,2}, threshold_for_convergence in {0,1,2,3,15}, max_iter in 1..40, n_realizations 1-3, 40 % with an input array "
+        "for initialize_u0 and 40 % for initialize_w0, 25 % with fix_w and 25 % with fix_communities: every sweep against the model's "
+        "_update_em with those flags, fit against its step-by-step replica, the training table against the model's "
+        "loop (runReal / bestOf), the first (u, w) of every realisation against the model's initialisation from the RAW random draws. "
+        "In (a), (b) and (f) every initialisation is recomputed by the model from the raw outputs of random_sample, and the Laplacian "
+        "of every HySC object (binary and weighted_L) is compared with the model's. "
         "A case is distinct by (hyperedges, weights, isolated nodes, K, seed, configuration); non-trivial when at least two "
         "EM sweeps ran, the log-likelihood strictly increased at least once and the returned u has two different non-zero rows; "
         "a session is non-trivial when it has a repeated call and two calls with different results")
 ASSUMPTIONS = [
     "hyperedges have size >= 2 (size 1 has no affinity row), weights > 0, at least K non-isolated nodes (KMeans needs n_samples >= n_clusters)",
-    "fix_communities, fix_w, gammaU, gammaW, initialize_u0/w0, out_inference at their defaults; check_convergence_every = 1",
+    "gammaU, gammaW, out_inference at their defaults; fix_w, fix_communities, initialize_u0/w0 (arrays only), check_convergence_every != 1, tolerance, threshold_for_convergence only in class (f), where the ascent / agreement oracles are not evaluated (between two checks the recorded value is stale by design)",
     "ascent is demanded for normalizeU=False; agreement incremental = definition for min_value_par=0 (the property's quantifier)",
     "a decrease of the recorded log-likelihood is tolerated only in a sweep with a clamp/repair event (D34) or in an ill-conditioned state (min positive u < 1e-20 or max w > 1e10, D35); both classes are replayed from committed witnesses",
     "the state after sweep t of a realisation is what fit returns for max_iter = t+1, n_realizations = 1 and that realisation's seed: an invalid intermediate state is reported only after fit itself was run on that configuration and returned / raised the same",
@@ -67,7 +74,8 @@ ASSUMPTIONS = [
     "a session call whose reference call on a fresh object raises (K-means, ill-conditioned state) ends the session without a verdict: failures of a single call are the business of classes (a)-(c)",
 ]
 TRUSTED = [
-    "k-means (sklearn), np.linalg.eig, scipy.optimize.root (Lagrange multiplier), RandomState draws: parameters of the model, their values are read from the running implementation",
+    "k-means (sklearn), np.linalg.eig, scipy.optimize.root (Lagrange multiplier), RandomState draws: parameters of the model, their values are read from the running implementation (the raw outputs of random_sample; u0, w0 are computed from them by the model)",
+    "np.sqrt in HySC._extract_laplacian: the model's Laplacian takes the square root as a parameter (Float.sqrt in the driver); entries compared at 1e-12 relative to the largest entry (the code's matrix products associate differently)",
     "binary64 vs exact arithmetic: model sweeps are compared at 1e-9 relative (per array scale); the generic Lean definitions are run at Float for whole trajectories and at Rat on small dyadic states",
     "log/exp of numpy; the model returns the Poisson means and the penalty, the harness applies math.log",
     "normalizeU=True: the root finder is outside the proof (contract LamOk of C17_normalized_row); row sums are checked on the code after every sweep, up to 1e-6 + K*min_value_par + 16 * (change of the constraint over one binary64 step of the multiplier at its root, found by bisection on the bit patterns); a numerator below 1e-290 counts as unrepresentable",
@@ -371,13 +379,24 @@ def mutated_content(case):
 
 def new_model(case):
     from hypergraphx.communities.hypergraph_mt.model import HypergraphMT
+    kw = {k: case[k] for k in ("tolerance", "threshold_for_convergence") if k in case}
     return HypergraphMT(n_realizations=case["n_realizations"], max_iter=case["max_iter"],
                         min_value_par=case["min_value_par"], verbose=False,
-                        check_convergence_every=case.get("check_convergence_every", 1))
+                        check_convergence_every=case.get("check_convergence_every", 1), **kw)
 
 
 def fit_args(case):
-    return dict(K=case["K"], seed=case["seed"], normalizeU=case["normalizeU"], baseline_r0=case["baseline_r0"])
+    kw = dict(K=case["K"], seed=case["seed"], normalizeU=case["normalizeU"], baseline_r0=case["baseline_r0"])
+    # extension round: the inputs of initialize_u0 / initialize_w0 (arrays), used by the termination/initialisation stage only
+    if case.get("initialize_u0") is not None or case.get("initialize_w0") is not None:
+        import numpy as np
+        for k in ("initialize_u0", "initialize_w0"):
+            if case.get(k) is not None:
+                kw[k] = np.array(case[k], dtype=float)
+    for k in ("fix_w", "fix_communities"):
+        if k in case:
+            kw[k] = case[k]
+    return kw
 
 
 # ------------------------------------------------------------------------------------------
@@ -653,8 +672,32 @@ def drive(case, h):
                 ev["lag"] = {}
                 m._initialize_psiOmega()
                 psimax = np.abs(m.psiOmega.copy())
-                m._initialize_u_w(hyperEdges=m.hyperEdges, baseline_HySC=(m.baseline_r0 if r == 0 else False))
+                # extension round: the matrix of the spectral baseline is tapped (u0_current_real_t0 is overwritten in place)
+                import hypergraphx.communities.hypergraph_mt.model as _mtmod
+                _real_hysc = _mtmod.calculate_u_HySC
+                ev["hysc"] = None
+
+                def _tapped_hysc(*a, **k):
+                    X = _real_hysc(*a, **k)
+                    ev["hysc"] = np.array(X, dtype=float).tolist()
+                    return X
+                _mtmod.calculate_u_HySC = _tapped_hysc
+                try:
+                    m._initialize_u_w(hyperEdges=m.hyperEdges, baseline_HySC=(m.baseline_r0 if r == 0 else False))
+                finally:
+                    _mtmod.calculate_u_HySC = _real_hysc
                 R["uk"] = [float(x) for x in ev["draws"][0][4]] if ev["draws"] else None
+                # the RAW outputs of prng.random_sample, in the order the code draws them: K, (N, K), (D-1, K)
+                R["raw"] = None
+                dr = ev["draws"]
+                if len(dr) == 3 and all(x[1] == "random_sample" for x in dr):
+                    du, dw = np.asarray(dr[1][4], dtype=float), np.asarray(dr[2][4], dtype=float)
+                    if du.shape == (m.N, m.K) and dw.shape == (m.D - 1, m.K):
+                        base = bool(m.baseline_r0 if r == 0 else False)
+                        around = ev["hysc"] if base else (None if m.u0 is None else np.asarray(m.u0, dtype=float).tolist())
+                        R["raw"] = {"du": du.tolist(), "dw": dw.tolist(), "hysc": around, "noise": float(m.noise_input_par),
+                                    "baseline": base, "ok": (ev["hysc"] is not None) == base,
+                                    "winit": None if m.w0 is None else np.asarray(m.w0, dtype=float).tolist()}
                 R["u0"] = np.array(m.u0_current_real_t0).tolist()
                 R["w0"] = m.w.tolist()
                 R["dummy"] = m.u0_dummy.tolist()
@@ -802,6 +845,14 @@ def model_sweep_lines(static, case, R):
         lines.append(" ".join(["F", "init"] + cfgt + ["1" if R["r"] == 0 else "0", enc_vec(R["uk"], f2bits), enc_mat(R["u0"], f2bits),
                                                       enc_mat(R["w0"], f2bits)]))
         meta.append(("init", None))
+        raw = R.get("raw")
+        if raw is not None and raw["ok"]:
+            lines.append(" ".join(["F", "rawinit"] + cfgt + ["1" if R["r"] == 0 else "0",
+                                                             "none" if raw["hysc"] is None else enc_mat(raw["hysc"], f2bits),
+                                                             "none" if raw["winit"] is None else enc_mat(raw["winit"], f2bits),
+                                                             f2bits(raw["noise"]), enc_vec(R["uk"], f2bits),
+                                                             enc_mat(raw["du"], f2bits), enc_mat(raw["dw"], f2bits)]))
+            meta.append(("rawinit", None))
     for S in R["sweeps"]:
         if S["perm"] is None:
             continue
@@ -812,6 +863,39 @@ def model_sweep_lines(static, case, R):
                                                        hgxv.enc_list(S["perm"])]))
         meta.append(("sweep", S))
     return lines, meta
+
+
+def split_rawinit(a):
+    """answer of `F rawinit`: the 8 state fields, then u0 and w0"""
+    f = a.split(" ")
+    if len(f) != 10:
+        return a, None
+    return " ".join(f[:8]), (dec_mat(f[8], bits2f), dec_mat(f[9], bits2f))
+
+
+def rawinit_diff(ctx, case, R, ms, extra):
+    """extension round: u0, w0 and the initial state computed by the model from the RAW draws vs the implementation;
+    returns (difference text or None, excused)"""
+    excused = bool(R["init_repair"] or R["ill"])
+    d = None
+    if extra is None:
+        return "initialisation from raw draws: the model gives no u0, w0", False
+    if R["raw"]["winit"] is None:
+        # a selection of draws: exact
+        if extra[1] != R["w0"]:
+            return f"w0 from raw draws: implementation {R['w0']!r}, model {extra[1]!r}", False
+    else:
+        dd = mat_diff(R["w0"], extra[1], rtol=1e-12)
+        if dd is not None:
+            return f"w0 around initialize_w0 differs at {dd[:2]}: implementation {dd[2]!r}, model {dd[3]!r}", False
+    # u0_current_real_t0 is an internal intermediate (normalised once more by _initial_update_u_psi): what is compared is the
+    # first real u, a function of the draws alone - never excused by a psi repair
+    dd = mat_diff(R["init"]["u"], ms["u"], rtol=1e-9)
+    if dd is not None and not R["ill"]:
+        return f"first u from raw draws differs at {dd[:2]}: implementation {dd[2]!r}, model {dd[3]!r}", False
+    d = compare_state(ctx, case, "initialisation from raw draws", ms, R["init"], skip_bar=True, psimax=R["psimax0"])
+    ctx.count("initialisations_from_raw_draws_compared")
+    return d, excused
 
 
 def parse_state(ans, dec):
@@ -1268,12 +1352,17 @@ def check_case(ctx, drv, case, full=True, light=False, once=False):
             lines, meta = model_sweep_lines(st, case, R)
             ans = drv.batch(lines)
             for ln, a, (kind, S) in zip(lines, ans, meta):
+                extra = None
+                if kind == "rawinit":
+                    a, extra = split_rawinit(a)
                 ms = parse_state(a, bits2f)
                 where = {**case, "realization": R["r"], "iter": None if S is None else S["it"]}
                 if ms is None:
                     ctx.disagree({**where, "line": ln[:200]}, f"model answers {a[:80]!r}")
                     continue
-                if kind == "init":
+                if kind == "rawinit":
+                    d, excused = rawinit_diff(ctx, case, R, ms, extra)
+                elif kind == "init":
                     excused = bool(R["init_repair"] or R["ill"])
                     d = compare_state(ctx, case, "initialisation", ms, R["init"], skip_bar=True, psimax=R["psimax0"])
                     if d is None and not close(ll_from_model(st, ms), R["init_ll"], 1.0):
@@ -1348,15 +1437,15 @@ def check_case(ctx, drv, case, full=True, light=False, once=False):
     return facts
 
 
-def model_sensitivity(drv, line, S, ms):
+def model_sensitivity(drv, line, S, ms, psi_idx=14):
     """largest relative change of the model's (u, w) when the psi it starts from is moved by 2^-50 of the largest value
     each entry ever held (the error level of a table maintained by subtraction)"""
     f = line.split(" ")
     # layout: F sweep <10 cfg tokens> u w psi bar rho lams perm
-    psi = dec_mat(f[14], bits2f)
+    psi = dec_mat(f[psi_idx], bits2f)
     pm = S["psimax"]
     pert = [[x + 2.0 ** -50 * pm[d][k] for k, x in enumerate(r)] for d, r in enumerate(psi)]
-    f[14] = enc_mat(pert, f2bits)
+    f[psi_idx] = enc_mat(pert, f2bits)
     ms2 = parse_state(drv.ask(" ".join(f)), bits2f)
     if ms2 is None:
         return None
@@ -1473,6 +1562,36 @@ def check_hysc(ctx, drv, case, h, st):
         if ans[1] != want:
             ctx.disagree(case, f"HySC assembly: model {ans[1]}, implementation {want}")
         ctx.count("hysc_assemblies_compared")
+    # extension round: the Laplacian of `_extract_laplacian` (binary, and weighted_L on the same object) against the model
+    # (binary64 with the same square root; the code's matrix products associate differently: 1e-12 relative to the largest entry)
+    if drv is not None and st is not None and int(st["N"]) == N:
+        try:
+            with quiet(), limit(CALL_TIMEOUT):
+                L0 = np.asarray(mh.L, dtype=float).tolist()
+                mh._extract_laplacian(weighted_L=True)
+                L1 = np.asarray(mh.L, dtype=float).tolist()
+        except Exception as ex:  # noqa: BLE001
+            ctx.violation(case, f"HySC._extract_laplacian(weighted_L=True) fails: {type(ex).__name__}: {ex}")
+            return
+        cfgt = cfg_tokens(st, f2bits, 0.0)
+        ans = drv.batch([" ".join(["F", "lap"] + cfgt + [wl]) for wl in ("0", "1")])
+        for wl, Lc, a in zip((False, True), (L0, L1), ans):
+            try:
+                Lm = dec_mat(a, bits2f)
+            except Exception:  # noqa: BLE001
+                ctx.disagree(case, f"Laplacian (weighted_L={wl}): model answers {a[:80]!r}")
+                continue
+            d = mat_diff(Lc, Lm, rtol=1e-12)
+            if d is not None:
+                ctx.disagree(case, f"HySC Laplacian (weighted_L={wl}) differs at {d[:2]}: implementation {d[2]!r}, model {d[3]!r}")
+            # the algebraic facts proved in Lean, on the implementation's matrix: symmetric (exactly: the code computes
+            # entry (i, j) and (j, i) with the same products in another order - compared at 1e-12), unit rows for isolated nodes
+            iso = set(range(N)) - set(int(i) for i in mh.non_isolates)
+            for i in iso:
+                if any(Lc[i][j] != (1.0 if i == j else 0.0) or Lc[j][i] != (1.0 if i == j else 0.0) for j in range(N)):
+                    ctx.disagree(case, f"HySC Laplacian (weighted_L={wl}): row/column {i} of an isolated node is not a unit vector")
+                    break
+        ctx.count("hysc_laplacians_compared", 2)
 
 
 # ------------------------------------------------------------------------------------------
@@ -2145,7 +2264,7 @@ REGRESSION_SIGNATURE = {     # how the defect showed: anything else on the same 
     "D37": ("does not return", "non-finite"),
     "D36": ("normalizeU=True but non-zero rows", "negative entries"),
 }
-STAGES = [x for x in (os.environ.get("C17_STAGES") or "corpus,known,large,esymm,sparse,sessions,general,small").split(",") if x]   # debugging aid
+STAGES = [x for x in (os.environ.get("C17_STAGES") or "corpus,known,large,esymm,sparse,every,sessions,general,small").split(",") if x]   # debugging aid
 
 
 def replay_regressions(ctx, drv):
@@ -2443,6 +2562,175 @@ def run_large(ctx, drv):
             return
 
 
+# ------------------------------------------------------------------------------------------
+# extension round: the termination logic of fit with every option of the constructor that enters it
+# (check_convergence_every != 1, tolerance, threshold_for_convergence) against `runReal` / `bestOf`
+
+def gen_every(rng):
+    case = gen(rng)
+    for k in ("detour", "mutate"):
+        case.pop(k, None)
+    case.update({"check_convergence_every": rng.choice([1, 2, 2, 3, 4, 7]),
+                 "tolerance": rng.choice([0.1, 0.5, 0.01, 2.0]),
+                 "threshold_for_convergence": rng.choice([0, 1, 2, 3, 15]),
+                 "max_iter": rng.choice([1, 2, 3, 4, 5, 7, 8, 9, 12, 16, 25, 40]),
+                 "n_realizations": rng.choice([1, 2, 3]), "normalizeU": False})
+    # the inputs of initialize_u0 / initialize_w0 (arrays of the right shape, non-negative, not all zero)
+    N = len(set(x for e in case["edges"] for x in e) | set(case.get("isolated", [])))
+    D = max(len(e) for e in case["edges"])
+    if rng.random() < 0.4:
+        U = [[rng.choice([0, 0, 1, 1, 0.5, 0.25, 2.0, 0.1]) for _ in range(case["K"])] for _ in range(N)]
+        U[rng.randrange(N)][rng.randrange(case["K"])] = rng.choice([1, 1.0, 3.5])
+        case["initialize_u0"] = U
+    if rng.random() < 0.4:
+        case["initialize_w0"] = [[rng.choice([0.5, 1, 2.0, 0.25, 0.1, 5]) for _ in range(case["K"])] for _ in range(D - 1)]
+    # the flags of _update_em
+    if rng.random() < 0.25:
+        case["fix_w"] = True
+    if rng.random() < 0.25:
+        case["fix_communities"] = True
+    return case
+
+
+def sweepfix_lines(static, case, R):
+    """one `F sweepfix` line per driven sweep (the model's _update_em with the flags fix_w / fix_communities)"""
+    cfgt = cfg_tokens(static, f2bits, case["min_value_par"], normU=False)
+    fw, fu = "1" if case.get("fix_w") else "0", "1" if case.get("fix_communities") else "0"
+    out = []
+    for S in R["sweeps"]:
+        if S["perm"] is None and fu == "0":
+            continue
+        b = S["before"]
+        out.append((" ".join(["F", "sweepfix"] + cfgt + [fw, fu, enc_mat(b["u"], f2bits), enc_mat(b["w"], f2bits),
+                                                         enc_mat(b["psi"], f2bits), enc_mat(b["bar"], f2bits),
+                                                         enc_mat(b["rho"], f2bits), "-", hgxv.enc_list(S["perm"] or [])]), S))
+    return out
+
+
+def sweepfix_diff(ctx, drv, case, S, ln, a, minv):
+    """the comparison of one model sweep with the implementation's, with the tolerances and excuse classes of check_case
+    (negative-psi repair / ill-conditioned state, measured conditioning of the step, an entry next to a clamp threshold)"""
+    ms = parse_state(a, bits2f)
+    if ms is None:
+        return f"model answers {a[:80]!r}"
+    excused = bool(S["repair"] or S["ill"])
+    d = compare_state(ctx, case, f"sweep {S['it']}", ms, S["after"], psimax=S["psimax"], rtol=1e-9)
+    if d is not None and not excused:
+        sens = model_sensitivity(drv, ln, S, ms, psi_idx=16)
+        if sens is not None and sens > 0:
+            rtol = 1e-9 + 64 * sens
+            if rtol < 1e-4:
+                d = compare_state(ctx, case, f"sweep {S['it']}", ms, S["after"], psimax=S["psimax"], rtol=rtol)
+                ctx.count("model_steps_tolerance_widened_by_measured_conditioning")
+            else:
+                ctx.count("model_steps_skipped_ill_conditioned_step")
+                return None
+    if d is not None and near_threshold(S, ms, minv):
+        ctx.count("model_steps_skipped_near_threshold")
+        return None
+    ctx.count("model_sweeps_with_flags_compared")
+    if d is not None and excused:
+        ctx.count("model_steps_differing_with_repair_or_ill_conditioned")
+        return None
+    return d
+
+
+def check_every(ctx, drv, case):
+    try:
+        with quiet():
+            h = build(case)
+    except Exception as ex:  # noqa: BLE001
+        ctx.violation(case, f"cannot build the hypergraph: {type(ex).__name__}: {ex}")
+        return
+    every, thr, tol = case["check_convergence_every"], case["threshold_for_convergence"], case["tolerance"]
+    key = repr(("every", sorted(map(repr, case["edges"])), case.get("weights"), sorted(map(repr, case.get("isolated", []))),
+                {k: case[k] for k in ("K", "seed", "n_realizations", "max_iter", "min_value_par", "baseline_r0",
+                                      "check_convergence_every", "tolerance", "threshold_for_convergence")},
+                case.get("initialize_u0"), case.get("initialize_w0"), case.get("fix_w"), case.get("fix_communities")))
+    ctx.count("termination_fix_w" if case.get("fix_w") else "termination_w_free")
+    ctx.count("termination_fix_communities" if case.get("fix_communities") else "termination_u_free")
+    t = drive(case, h)
+    r1 = run_fit(case, h)
+    # the initialisation of every realisation from the raw draws (also around the inputs of initialize_u0 / initialize_w0)
+    if drv is not None and t.static is not None:
+        for R in t.reals:
+            if "init" not in R:
+                continue
+            lines, meta = model_sweep_lines(t.static, case, R)
+            sel = [ln for ln, (kind, S) in zip(lines, meta) if kind == "rawinit"]
+            for ln, a in zip(sel, drv.batch(sel) if sel else []):
+                a8, extra = split_rawinit(a)
+                ms = parse_state(a8, bits2f)
+                if ms is None:
+                    ctx.disagree({**case, "realization": R["r"]}, f"model answers {a[:80]!r}")
+                    continue
+                d, excused = rawinit_diff(ctx, case, R, ms, extra)
+                if d is not None and excused:
+                    ctx.count("model_steps_differing_with_repair_or_ill_conditioned")
+                elif d is not None:
+                    ctx.disagree({**case, "realization": R["r"]}, d)
+            # every sweep against the model's _update_em with the flags fix_w / fix_communities
+            sl = sweepfix_lines(t.static, case, R)
+            for (ln, S), a in zip(sl, drv.batch([x[0] for x in sl]) if sl else []):
+                d = sweepfix_diff(ctx, drv, case, S, ln, a, case["min_value_par"])
+                if d is not None:
+                    ctx.disagree({**case, "realization": R["r"], "iter": S["it"]}, d)
+                    break
+            # a fixed parameter is returned as it was initialised (the words of the option)
+            if R["sweeps"] and "init" in R:
+                import numpy as np
+                if case.get("fix_w") and not np.array_equal(np.asarray(R["w"]), np.asarray(R["init"]["w"])):
+                    ctx.violation({**case, "realization": R["r"]}, "fix_w=True but w changed during the EM")
+                if case.get("fix_communities") and not np.array_equal(np.asarray(R["u"]), np.asarray(R["init"]["u"])):
+                    ctx.violation({**case, "realization": R["r"]}, "fix_communities=True but u changed during the EM")
+            if R["raw"] is not None and (R["raw"]["hysc"] is not None and not R["raw"]["baseline"]):
+                ctx.count("initialisations_around_initialize_u0")
+            if R["raw"] is not None and R["raw"]["winit"] is not None:
+                ctx.count("initialisations_around_initialize_w0")
+    ill = any(R["ill"] for R in t.reals) and case["min_value_par"] == 0
+    if r1[0] == "exc" or t.error:
+        if ill:
+            ctx.count("ill_conditioned_failures")
+        else:
+            ctx.violation(case, f"HypergraphMT.fit does not return: {r1[1] if r1[0] == 'exc' else 'step-by-step run: ' + t.error}")
+        ctx.case(key, False, sample=case)
+        return
+    _, u, w, maxL, rows, m = r1
+    drows = [(R["r"], int(R["seed"]), it, ll, cv) for R in t.reals for (it, ll, cv) in R["rows"]]
+    if drows != rows or t.maxL != maxL:
+        ctx.disagree(case, f"fit and its step-by-step replica record different train_info: {rows[:4]}... vs {drows[:4]}...")
+    # the property's words: the returned log-likelihood is the largest final value recorded in the training table
+    last, its = {}, {}
+    for (r, sd, it, ll, cv) in rows:
+        last[r] = ll
+        its.setdefault(r, []).append(it)
+    if sorted(last) != list(range(case["n_realizations"])):
+        ctx.violation(case, f"train_info lists realisations {sorted(last)}, expected 0..{case['n_realizations'] - 1}")
+    elif maxL != max(last.values()):
+        ctx.violation(case, f"returned maxL {maxL!r} != max of the last recorded log-likelihoods {last}")
+    converged_some = False
+    for R in t.reals:
+        Ls = [S["loglik"] for S in R["sweeps"]]
+        converged_some = converged_some or R["final"][2]
+        if drv is not None and Ls and all(math.isfinite(x) for x in Ls):
+            a = drv.ask(" ".join(["R", "conv", q(tol), str(thr), str(every), str(case["max_iter"]), q(-INF), enc_vec(Ls, q)]))
+            want_rows = ";".join(f"{it}:{q(ll)}:{int(cv)}" for (it, ll, cv) in R["rows"]) or "-"
+            want = f"{q(R['final'][0])} {R['final'][1]} {int(R['final'][2])} {want_rows}"
+            if a != want:
+                ctx.disagree({**case, "realization": R["r"]}, f"convergence bookkeeping: model {a[:160]!r}, implementation {want[:160]!r}")
+            ctx.count("termination_runs_compared")
+    finals = [R["final"][0] for R in t.reals]
+    if drv is not None and finals and all(math.isfinite(x) for x in finals) and len(finals) == case["n_realizations"]:
+        a = drv.ask(" ".join(["R", "best", q(-INF), enc_vec(finals, q)]))
+        want = f"{q(t.maxL)} {-1 if t.best is None else t.best}"
+        if a != want:
+            ctx.disagree(case, f"best-realisation bookkeeping: model {a!r}, implementation {want!r}")
+    ctx.count("termination_every_" + str(every))
+    if converged_some:
+        ctx.count("termination_cases_with_convergence")
+    ctx.case(key, len(rows) >= 2, sample=case)
+
+
 def run(ctx):
     drv = ctx.driver() if ctx.model_available else None
     if "corpus" in STAGES:
@@ -2472,6 +2760,12 @@ def run(ctx):
         # (c) sparse exact states
         for _ in range(ctx.scale(30, 400)):
             exact("sparse")
+            if ctx.too_many():
+                return
+    # (e) termination logic with every constructor option that enters it
+    if "every" in STAGES:
+        for _ in range(ctx.scale(10, 250)):
+            check_every(ctx, drv, gen_every(ctx.rng))
             if ctx.too_many():
                 return
     # (d) sessions on one model object
@@ -2510,5 +2804,8 @@ def replay(ctx, case):
     for k in ("realization", "iter", "from", "to", "line", "u", "w", "perm", "exact"):
         case.pop(k, None)
     case["edges"] = [tuple(e) for e in case["edges"]]
+    if "check_convergence_every" in case:
+        check_every(ctx, drv, case)
+        return
     covered = len(set(x for e in case["edges"] for x in e))
     check_case(ctx, drv, case, full=case["K"] <= covered)
